@@ -12,6 +12,10 @@
 //        mal <c> | emp <c>                not-JSON payload | empty payload
 //        ban <ip> | unban <ip> | bl <ip> | unbl <ip> | refill <ip>
 //        exp <k> | del <k> | strip <k>    credential expiry | config deleted | config without encrypted key
+//        sec <k> <u|d|e|l>                stored secret becomes usable | undecryptable (sealed under another master key) |
+//                                         empty ciphertext | legacy (only the deprecated plaintext field)
+//   nc:  number of pre-provisioned clients (all usable) or one letter u|d|e|l per client
+//   key: <k> secret client #k was given | E the empty key | C<k> stored ciphertext bytes of #k | P<k> deprecated plaintext field of #k
 //   ty:  c control | t tunnel | e "" | x "weird" | a (fc only) control with token "anonymous:x"
 // obs:   per event  <resp> c <conn>.. r <lookup>.. b <bits> l <bits>   joined by " ; "
 //   resp: ok | new<k> | ch<j> | fail | none | -        conn: - | <auth>/<id|->/<pending|->
@@ -97,6 +101,7 @@ type stack struct {
 	cc      *managers.BuiltinCloudControl
 	cfg     *repos.ClientConfigRepository
 	skm     *security.SecretKeyManager
+	skmAlt  *security.SecretKeyManager // another master key: what it seals the server cannot open
 	bfp     *security.BruteForceProtector
 	ipm     *security.IPManager
 	rl      *security.RateLimiter
@@ -111,8 +116,37 @@ type stack struct {
 }
 
 var masterKey = base64.StdEncoding.EncodeToString(bytes.Repeat([]byte{0x5a}, 32))
+var otherMasterKey = base64.StdEncoding.EncodeToString(bytes.Repeat([]byte{0xa5}, 32))
 
-func newStack(ips []int, nc int, burst int) (*stack, error) {
+// setSecret rewrites what is stored for the client's secret.
+func (st *stack) setSecret(k int, state byte) error {
+	id := st.table[k].id
+	cfg, err := st.cfg.GetConfig(id)
+	if err != nil || cfg == nil {
+		return nil // config deleted: nothing to rewrite
+	}
+	plain := st.table[k].secret
+	cfg.SecretKey = ""
+	switch state {
+	case 'u':
+		cfg.SecretKeyEncrypted, err = st.skm.Encrypt(plain)
+	case 'd':
+		cfg.SecretKeyEncrypted, err = st.skmAlt.Encrypt(plain)
+	case 'e':
+		cfg.SecretKeyEncrypted = ""
+	case 'l':
+		cfg.SecretKeyEncrypted = ""
+		cfg.SecretKey = plain
+	default:
+		return fmt.Errorf("bad secret state %q", state)
+	}
+	if err != nil {
+		return err
+	}
+	return st.cfg.SaveConfig(cfg)
+}
+
+func newStack(ips []int, nc int, secs string, burst int) (*stack, error) {
 	ctx, cancel := context.WithCancel(context.Background())
 	st := &stack{cancel: cancel, ctx: ctx, ips: ips}
 	stor := storage.NewMemoryStorage(ctx)
@@ -124,6 +158,9 @@ func newStack(ips []int, nc int, burst int) (*stack, error) {
 		return nil, err
 	}
 	st.skm = skm
+	if st.skmAlt, err = security.NewSecretKeyManager(&security.SecretKeyConfig{MasterKey: otherMasterKey}); err != nil {
+		return nil, err
+	}
 	st.cc.SetSecretKeyManager(skm)
 	st.sm = session.NewSessionManager(idgen.NewIDManager(stor, ctx), ctx)
 	st.bfp = security.NewBruteForceProtector(nil, ctx)
@@ -153,6 +190,11 @@ func newStack(ips []int, nc int, burst int) (*stack, error) {
 			return nil, err
 		}
 		st.table = append(st.table, client{cl.ID, cl.SecretKeyPlaintext})
+		if i < len(secs) && secs[i] != 'u' {
+			if err := st.setSecret(i, secs[i]); err != nil {
+				return nil, err
+			}
+		}
 	}
 	return st, nil
 }
@@ -229,14 +271,41 @@ func (st *stack) respTerm(r string) (string, error) {
 		if len(parts) != 2 || len(parts[1]) < 2 {
 			return "", fmt.Errorf("bad response term %q", r)
 		}
-		key, err1 := strconv.Atoi(parts[0])
 		d, err2 := strconv.Atoi(parts[1][1:])
-		if err1 != nil || err2 != nil {
+		if err2 != nil {
 			return "", fmt.Errorf("bad response term %q", r)
 		}
-		secret := fmt.Sprintf("no-such-secret-%d", key)
-		if key < len(st.table) {
-			secret = st.table[key].secret
+		stored := func(k int) (enc, plain string) {
+			if k < len(st.table) {
+				if cfg, err := st.cfg.GetConfig(st.table[k].id); err == nil && cfg != nil {
+					return cfg.SecretKeyEncrypted, cfg.SecretKey
+				}
+			}
+			return fmt.Sprintf("no-such-ciphertext-%d", k), fmt.Sprintf("no-such-plaintext-%d", k)
+		}
+		var secret string
+		switch ks := parts[0]; {
+		case ks == "E":
+			secret = ""
+		case strings.HasPrefix(ks, "C") || strings.HasPrefix(ks, "P"):
+			k, err := strconv.Atoi(ks[1:])
+			if err != nil || k < 0 {
+				return "", fmt.Errorf("bad response term %q", r)
+			}
+			enc, plain := stored(k)
+			secret = enc
+			if ks[0] == 'P' {
+				secret = plain
+			}
+		default:
+			key, err := strconv.Atoi(ks)
+			if err != nil || key < 0 {
+				return "", fmt.Errorf("bad response term %q", r)
+			}
+			secret = fmt.Sprintf("no-such-secret-%d", key)
+			if key < len(st.table) {
+				secret = st.table[key].secret
+			}
 		}
 		ch := -1
 		if d < len(st.lastCh) {
@@ -455,6 +524,15 @@ func (st *stack) step(ev []string) (string, error) {
 			st.rl.VerifRefillIP(ipStr(i))
 		}
 		return "-", nil
+	case "sec":
+		k, err := argn(1)
+		if err != nil || len(ev) != 3 || len(ev[2]) != 1 {
+			return "", fmt.Errorf("bad event %v", ev)
+		}
+		if k >= len(st.table) {
+			return "-", nil
+		}
+		return "-", st.setSecret(k, ev[2][0])
 	case "exp", "del", "strip":
 		k, err := argn(1)
 		if err != nil {
@@ -484,24 +562,31 @@ func (st *stack) step(ev []string) (string, error) {
 
 // ---- case execution
 
-func parseHeader(toks []string) (ips []int, nc, burst int, rest []string, err error) {
+func parseHeader(toks []string) (ips []int, nc int, secs string, burst int, rest []string, err error) {
 	if len(toks) < 8 || toks[0] != "seq" || toks[1] != "ips" || toks[3] != "nc" || toks[5] != "rl" || toks[7] != ":" {
-		return nil, 0, 0, nil, fmt.Errorf("bad header")
+		return nil, 0, "", 0, nil, fmt.Errorf("bad header")
 	}
 	for _, s := range strings.Split(toks[2], ",") {
 		v, e := strconv.Atoi(s)
 		if e != nil {
-			return nil, 0, 0, nil, e
+			return nil, 0, "", 0, nil, e
 		}
 		ips = append(ips, v)
 	}
 	if nc, err = strconv.Atoi(toks[4]); err != nil {
-		return
+		secs = toks[4]
+		nc = len(secs)
+		err = nil
+		for _, ch := range secs {
+			if !strings.ContainsRune("udel", ch) {
+				return nil, 0, "", 0, nil, fmt.Errorf("bad client table %q", secs)
+			}
+		}
 	}
 	if burst, err = strconv.Atoi(toks[6]); err != nil {
 		return
 	}
-	return ips, nc, burst, toks[8:], nil
+	return ips, nc, secs, burst, toks[8:], nil
 }
 
 func runSeq(caseStr string) string {
@@ -512,12 +597,12 @@ func runSeq(caseStr string) string {
 				res <- "panic " + strings.ReplaceAll(fmt.Sprint(r), " ", "_")
 			}
 		}()
-		ips, nc, burst, rest, err := parseHeader(strings.Fields(caseStr))
+		ips, nc, secs, burst, rest, err := parseHeader(strings.Fields(caseStr))
 		if err != nil {
 			res <- "bad-case " + strings.ReplaceAll(err.Error(), " ", "_")
 			return
 		}
-		st, err := newStack(ips, nc, burst)
+		st, err := newStack(ips, nc, secs, burst)
 		if err != nil {
 			res <- "setup-failed " + strings.ReplaceAll(err.Error(), " ", "_")
 			return
@@ -605,6 +690,51 @@ func genExhaustive(depth int, emit func(string, string)) {
 	rec(nil, depth)
 }
 
+// second exhaustive family: client A=#0 usable, V=#1 with an unusable stored secret (state given in the header);
+// one connection is enough (connections are symmetric), every key term against V and the degenerate ones against A
+func alphabetUnusable() []string {
+	return []string{
+		"hs 0 c 0 -", "hs 0 c 1 -",
+		"hs 0 c 1 hE.L0", "hs 0 c 1 hC1.L0", "hs 0 c 1 hP1.L0", "hs 0 c 1 h0.L0", "hs 0 c 1 h1.L0",
+		"hs 0 c 0 h0.L0", "hs 0 c 0 hE.L0", "hs 0 t 1 hE.L0",
+		"sec 1 u", "sec 0 d",
+	}
+}
+
+func genExhaustiveUnusable(depth int, emit func(string, string)) {
+	al := alphabetUnusable()
+	for _, v := range []string{"d", "e", "l"} {
+		hdr := "seq ips 0,1 nc u" + v + " rl 20 : "
+		var rec func(prefix []string, d int)
+		rec = func(prefix []string, d int) {
+			if len(prefix) > 0 {
+				emit(hdr+strings.Join(prefix, " ; "), fmt.Sprintf("exhaustive-unusable-len%d", len(prefix)))
+			}
+			if d == 0 {
+				return
+			}
+			for _, e := range al {
+				rec(append(prefix[:len(prefix):len(prefix)], e), d-1)
+			}
+		}
+		rec(nil, depth)
+	}
+}
+
+func randKey(r *vc.Rand, ncl int, k int) string {
+	switch r.Intn(8) {
+	case 0:
+		return "E"
+	case 1:
+		return fmt.Sprintf("C%d", k)
+	case 2:
+		return fmt.Sprintf("P%d", k)
+	case 3:
+		return strconv.Itoa(r.Intn(ncl + 2))
+	}
+	return strconv.Itoa(k)
+}
+
 var tys = []string{"c", "c", "c", "c", "t", "e", "x"}
 
 func randResp(r *vc.Rand, c, nconn, ncl int, target string) string {
@@ -612,7 +742,9 @@ func randResp(r *vc.Rand, c, nconn, ncl int, target string) string {
 	if err != nil {
 		k = r.Intn(ncl + 1)
 	}
-	switch r.Intn(10) {
+	switch r.Intn(12) {
+	case 10, 11:
+		return fmt.Sprintf("h%s.L%d", randKey(r, ncl, k), c)
 	case 0:
 		return "j"
 	case 1:
@@ -636,6 +768,14 @@ func genRandom(r *vc.Rand, n int, emit func(string, string)) {
 			ips[j] = strconv.Itoa(r.Intn(nip))
 		}
 		ncl := 1 + r.Intn(3)
+		nctok := strconv.Itoa(ncl)
+		if r.Intn(3) == 0 {
+			b := make([]byte, ncl)
+			for j := range b {
+				b[j] = "uuudel"[r.Intn(6)]
+			}
+			nctok = string(b)
+		}
 		burst := 20
 		if r.Intn(4) == 0 {
 			burst = 1 + r.Intn(3)
@@ -690,8 +830,10 @@ func genRandom(r *vc.Rand, n int, emit func(string, string)) {
 				evs = append(evs, fmt.Sprintf("%s %d", vc.Pick(r, []string{"ban", "unban", "ban", "unban", "bl", "unbl"}), r.Intn(nip)))
 			case x < 86:
 				evs = append(evs, fmt.Sprintf("refill %d", r.Intn(nip)))
-			case x < 92:
+			case x < 89:
 				evs = append(evs, fmt.Sprintf("%s %d", vc.Pick(r, []string{"exp", "exp", "del", "strip"}), r.Intn(known+1)))
+			case x < 92:
+				evs = append(evs, fmt.Sprintf("sec %d %s", r.Intn(known+1), vc.Pick(r, []string{"u", "d", "e", "l"})))
 			case x < 96: // a message on a connection the server does not know
 				evs = append(evs, fmt.Sprintf("hs %d c 0 -", nconn+r.Intn(2)))
 			default: // repeated failures on one address: the brute-force counter
@@ -703,7 +845,7 @@ func genRandom(r *vc.Rand, n int, emit func(string, string)) {
 		if len(evs) > 14 {
 			evs = evs[:14]
 		}
-		emit(fmt.Sprintf("seq ips %s nc %d rl %d : %s", strings.Join(ips, ","), ncl, burst, strings.Join(evs, " ; ")), "random")
+		emit(fmt.Sprintf("seq ips %s nc %s rl %d : %s", strings.Join(ips, ","), nctok, burst, strings.Join(evs, " ; ")), "random")
 	}
 }
 
@@ -749,9 +891,11 @@ func main() {
 		r := vc.NewRand(*seed)
 		if *tier == "thorough" {
 			genExhaustive(4, add)
+			genExhaustiveUnusable(4, add)
 			genRandom(r, 60000, add)
 		} else {
 			genExhaustive(3, add)
+			genExhaustiveUnusable(3, add)
 			genRandom(r, 12000, add)
 		}
 	}
